@@ -11,4 +11,24 @@ CLAIMED = {
         note="Only the retry clause is decided so far; the worker-count and max_errors bounds are not yet under contract. "
              "'that many do run in parallel' is a liveness lower bound and is not decided by contracts.",
     ),
+    "C11": dict(
+        technique="contract verification: real staged_write_path/staged_write/_try_remove and each store's write executed on a ghost file system; complete enumeration of ok/raise/partial/die at every file operation",
+        text="Complete proof relative to the file-operation contracts: the extracted code is loop-free, every decision (each operation x ok / raise / partial write / process death, "
+             "pre-existing target or not, stale staging file or not, str or pathlib path) is enumerated, and the invariant 'target holds the old or the complete new file, mtime changes only "
+             "with the new content' is an obligation after every operation; exit postconditions on every path.",
+        note="Assumes POSIX rename atomicity and the open/write/close/remove/serialiser contracts stated in contracts/filestore.py (T8). os._exit / SIGKILL are modelled as 'no further operation takes effect'.",
+    ),
+    "C12": dict(
+        technique="contract verification of read/write plumbing on a ghost file system (same path, mode, encoding object, newline handling, serialiser pair), MountedStore call sequence, get_modified_time against the file's mtime",
+        text="Proved: the arguments the real write and read pass to open() and to the (de)serialiser compose to the identity on each store's domain, given the stdlib contracts; 'contains a carriage "
+             "return' is symbolic so every str is covered; get_modified_time is None iff the path is missing/inaccessible and denotes the file's mtime; a write strictly increases it on the ghost clock.",
+        note="The stdlib pairs (codecs, json, pickle, text-layer newline translation on POSIX) are assumed inverse as documented (T8), validated only by the bounded native run used as replay. "
+             "'never decreases' is relative to a monotone system clock.",
+    ),
+    "C18": dict(
+        technique="contract verification of _to_naive_utc_time against the spec function instant() with an uninterpreted local-offset function (all time zones / DST rules), z3",
+        text="Proved for all values (None, aware with any offset, naive with any fold) and all local-time rules: the normalised key equals the instant the value denotes; "
+             "get_modified_time of the file stores returns the naive local time of the file's mtime instant. Use-site obligations (every time passes through the normalisation before any comparison) are part of the stale-check contract.",
+        note="Assumes datetime.astimezone / fromtimestamp / replace behave as documented (T10).",
+    ),
 }
